@@ -98,7 +98,7 @@ def run_C11(ctx):
     drive_client(ctx, r.stdout_path, "reasons", "result,events", "whole,bytewise,mid", agg)
     # retry count is per run of consecutive failures (a successful connection starts a fresh run), and errors that merely look
     # like context errors (a transport's own deadline) while the request's context is alive are ordinary retryable errors
-    r = tlc_client(ctx, "ClientRuns", cfgs([-1, 1, 2]), [P, P + ["data", "COLON", "y"], P + P], ["clean", "errctx", "errwrapeof", "cancel_eof", "cancel_cb"],
+    r = tlc_client(ctx, "ClientRuns", cfgs([-1, 1, 2]), [P, P + ["data", "COLON", "y"], P + P], ["clean", "errctx", "errwrapeof", "erriou", "cancel_eof", "cancel_cb"],
                    ["transport", "transport_ctx", "stream"], 4 if q else 5, False)
     drive_client(ctx, r.stdout_path, "runs", "result,events,waits", "whole", agg)
     r = tlc_client(ctx, "ClientBodyReset", cfgs([0, 1], body=("nil", "nobody", "getbody", "nogetbody", "failgetbody")), [P, P + ["data", "COLON", "y"]],
@@ -183,7 +183,9 @@ def c12_cfgs(q):
         return dict(maxRetries=mr, initial=800000, mulNum=mul[0], mulDen=mul[1], maxInterval=mx * 100000, jitter=j, body="nobody")
     base = [c(0, (3, 2), 0, "none"), c(0, (2, 1), 20, "none"), c(0, (1, 1), 0, "none"), c(2, (3, 2), 12, "none"), c(3, (3, 2), 0, "none"),
             c(2, (1, 1), 0, "none"), c(1, (3, 2), 8, "none"),
-            c(-1, (3, 2), 0, "none"), c(1, (2, 1), 0, "default"), c(0, (3, 2), 20, "quarter"), c(0, (3, 2), 0, "default")]
+            c(-1, (3, 2), 0, "none"), c(1, (2, 1), 0, "default"), c(0, (3, 2), 20, "quarter"), c(0, (3, 2), 0, "default"),
+            # a multiplier beyond anything (10^13 in the driver): the product does not fit an int64, the cap still applies
+            dict(maxRetries=3, initial=2000000, mulNum=2000000000, mulDen=1, maxInterval=4000000, jitter="none", body="nobody")]
     if not q:
         base += [c(3, (2, 1), 15, "quarter"), c(2, (1, 1), 0, "default"), c(0, (3, 2), 18, "none"), c(1, (3, 2), 0, "none")]
     return base
